@@ -67,6 +67,11 @@ type Opts struct {
 	// precedence carries the principal's real etype / salt / parameters, the others carry decoys (DecoyEtype, other salts)
 	HintSeq    []int32 `json:"preauth_hint_sequence,omitempty"`
 	DecoyEtype int32   `json:"decoy_etype,omitempty"`
+	// KDCKeyETypes, when set: the KDC holds keys of the client principal for these etypes only (a subset of ETypes), so
+	// that the etype it names in its pre-authentication hint need not be the first the client lists
+	KDCKeyETypes []int32 `json:"kdc_holds_client_keys_for,omitempty"`
+	// AdvertiseParams, when set: the KDC's ETYPE-INFO2 carries these s2kparams also for etypes that define none (des3, rc4)
+	AdvertiseParams []byte `json:"kdc_advertises_s2kparams,omitempty"`
 	// TGSETypes, when set: default_tgs_enctypes differs from default_tkt_enctypes (which stays ETypes)
 	TGSETypes []int32 `json:"default_tgs_enctypes,omitempty"`
 	// DefaultRealmElsewhere: default_realm names a realm that is not the client's (and has no KDC of its own)
@@ -200,6 +205,11 @@ func New(o Opts) *World {
 	w.KDC.RequirePA = o.PreAuth != "none"
 	w.KDC.Expect = ExpectFor(o)
 	w.Other.Expect = ExpectFor(o)
+	kdcET := o.ETypes
+	if len(o.KDCKeyETypes) > 0 {
+		kdcET = o.KDCKeyETypes
+	}
+	w.KDC.AdvertiseParams = o.AdvertiseParams
 	var params []byte
 	if o.Cred == "password" {
 		params = []byte{0, 0, 0, 64} // keep PBKDF2 cheap: the KDC advertises 64 iterations
@@ -209,11 +219,11 @@ func New(o Opts) *World {
 		if len(o.HintSeq) > 0 && !hasKind(o.HintSeq, 19) {
 			params = nil // only ETYPE-INFO2 can convey parameters
 		}
-		w.KDC.AddPasswordPrincipal(UserNames(o), w.PasswordValue(), o.ETypes, o.Salt, params)
+		w.KDC.AddPasswordPrincipal(UserNames(o), w.PasswordValue(), kdcET, o.Salt, params)
 	} else if o.Cred == "ccache" {
-		w.KDC.AddKeyPrincipal(UserNames(o), o.ETypes)
+		w.KDC.AddKeyPrincipal(UserNames(o), kdcET)
 	} else {
-		p := w.KDC.AddKeyPrincipal(UserNames(o), o.ETypes)
+		p := w.KDC.AddKeyPrincipal(UserNames(o), kdcET)
 		var items []keytabfmt.Item
 		for _, k := range p.Keys {
 			kv := uint32(k.KVNO)
